@@ -8,6 +8,7 @@ package main
 // nothing left to accept or send - is a hang; the list of choices is its replay.
 
 import (
+	"fmt"
 	"strconv"
 	"strings"
 
@@ -196,12 +197,26 @@ func exploreOnce(s *session, st strategy) (*sx.Node, int) {
 	obs := r.observe()
 	stuck := r.stuck()
 	double := false
+	wrong := ""
 	r.mu.Lock()
-	for _, x := range r.results {
+	for i, x := range r.results {
 		if x.n > 1 {
 			double = true
 		}
+		// the result a call got is not the one the peer sent for it (where the session determines it)
+		if want := s.expectedClass(i); want != "" && x.done && wrong == "" {
+			got := "err"
+			if x.ok {
+				got = "ok"
+			}
+			if got != want {
+				wrong = fmt.Sprintf("Execute #%d (run %q) returned %s; the peer answered this call with %s", i, s.calls[i].run,
+					map[string]string{"ok": "success", "err": "an error"}[got],
+					map[string]string{"ok": "a work-done message", "err": "a step-fatal error for its run id"}[want])
+			}
+		}
 	}
 	r.mu.Unlock()
-	return sx.L(sx.A("xobs"), sx.L(sx.A("stuck"), sx.B(stuck)), sx.L(sx.A("double"), sx.B(double)), obs, trace, sites), steps
+	return sx.L(sx.A("xobs"), sx.L(sx.A("stuck"), sx.B(stuck)), sx.L(sx.A("double"), sx.B(double)), obs, trace, sites,
+		sx.L(sx.A("wrong"), sx.B(wrong != ""), sx.S(wrong))), steps
 }
